@@ -180,7 +180,7 @@ def run(ctx):
         raise AnalysisBroken("no FileChecksumHasher implementation found")
     for cls in sorted(subs):
         rec = prog.records[cls]
-        fields = {fl["n"]: fl["did"] for fl in rec["fields"]}
+        fields = {fl["n"]: fl["qn"] for fl in rec["fields"]}   # qualified names: decl ids are per translation unit
         short = cls.split("::")[-1]
         meths = {}
         for m in ("copy", "finalize", "update"):
@@ -188,7 +188,7 @@ def run(ctx):
             if len(fs) != 1:
                 raise AnalysisBroken("%s::%s not found" % (short, m))
             meths[m] = fs[0]
-        reads = set(x["n"] for x in meths["copy"].nodes if x.get("k") == "member" and x.get("did") in fields.values())
+        reads = set(x["n"] for x in meths["copy"].nodes if x.get("k") == "member" and x.get("qn") in fields.values())
         written = set()
         for x in meths["finalize"].nodes:
             if x.get("k") in ("call", "construct"):
@@ -196,11 +196,11 @@ def run(ctx):
                     if a is None:
                         continue
                     for y in a.walk():
-                        if y.get("k") == "member" and y.get("did") in fields.values():
+                        if y.get("k") == "member" and y.get("qn") in fields.values():
                             written.add(y["n"])
             if x.get("k") == "bin" and x["op"] == "=":
                 for y in x.child("l").walk():
-                    if y.get("k") == "member" and y.get("did") in fields.values():
+                    if y.get("k") == "member" and y.get("qn") in fields.values():
                         written.add(y["n"])
         r.check(bool(reads) and reads <= written, "%s|copy-reads-what-finalize-writes" % short, "%s" % sorted(reads),
                 "copy() reads member(s) %s but finalize() writes %s" % (sorted(reads), sorted(written)), meths["copy"])
